@@ -493,7 +493,13 @@ func c13Tiers(c *Ctx) {
 	c.Cases("tiers", c.N(400, 12000), func(i int, r *rand.Rand) {
 		freeze(baseTime.Add(time.Duration(r.Int64N(1e9))))
 		defer unfreeze()
-		period := pick(r, []time.Duration{time.Second, 10 * time.Second, time.Minute})
+		period := pick(r, []time.Duration{time.Second, 10 * time.Second, time.Minute, 50 * time.Millisecond, 20 * time.Millisecond})
+		if period < time.Second {
+			// a source limited over sub-second periods is remembered for "1 second" at whole-second granularity, i.e. until the
+			// wall-clock second changes: the case (at most 75ms long) is kept inside one second so that nothing is forgotten
+			unfreeze()
+			freeze(baseTime.Add(time.Duration(r.Int64N(4e8))))
+		}
 		avgA := int64(2 + r.IntN(19))
 		burst := avgA + int64(r.IntN(int(2*avgA)))
 		avgB := 1 + r.Int64N(avgA-1) // the other plan is slower: its token time is longer
